@@ -7,6 +7,7 @@ import (
 	"fmt"
 	"regexp"
 	"strconv"
+	"strings"
 
 	"github.com/lidofinance/dc4bc/client/types"
 	"github.com/lidofinance/dc4bc/fsm/state_machines"
@@ -103,6 +104,10 @@ func runC10(w *World, tier string, mode string) (bool, interface{}) {
 	var kinds []string
 	var history []storage.Message // genuine messages seen so far
 	rounds := []string{}
+	wrapped := map[string]bool{} // round ids only the adversary's reinit envelopes name
+	for _, op := range c.Ops {
+		op.Filter = func(o *types.Operation) bool { return !wrapped[o.DKGIdentifier] }
+	}
 
 	w.Board.PreAppend = append(w.Board.PreAppend, func(m storage.Message, by int) {
 		if by < 0 {
@@ -144,7 +149,23 @@ func runC10(w *World, tier string, mode string) (bool, interface{}) {
 			injected++
 			kinds = append(kinds, "impersonation@"+m.Event)
 			w.Stats.Fault("impersonation")
-			w.Board.InjectMsg(x, &Inject{Kind: "impersonation", Detail: fmt.Sprintf("%d", p)})
+			if w.Tape.Bool(1, 4, "insideReinitEnvelope") {
+				// S hides the message in a reinitialisation envelope with an unused id on the
+				// outside; the file inside names the live round (or the unused id as well)
+				id := freshRoundID(w, uint64(len(w.Board.Msgs))+5)
+				parts, thr := reinitParticipants(w, m.DkgRoundID)
+				inner := id
+				if w.Tape.Bool(1, 2, "payloadNamesLiveRound") {
+					inner = m.DkgRoundID
+				}
+				env := reinitEnvelope(w, by, inner, thr, parts, []storage.Message{x})
+				env.DkgRoundID = id
+				env.Signature = ed25519.Sign(w.Nodes[by].Priv, env.Bytes())
+				wrapped[id] = true
+				w.Stats.Fault("impersonation-inside-reinit-envelope")
+				x = env
+			}
+			w.Board.InjectMsg(x, &Inject{Kind: "impersonation", Detail: fmt.Sprintf("%d|%s", p, m.DkgRoundID)})
 		case "replay":
 			// source: this message itself (replayed before it lands) or an earlier genuine one
 			src := m
@@ -199,14 +220,19 @@ func runC10(w *World, tier string, mode string) (bool, interface{}) {
 		if m.RecipientAddr != "" && m.RecipientAddr != nd.Name {
 			return
 		}
-		p, _ := strconv.Atoi(inj.Detail)
+		det := inj.Detail
+		liveRound := m.DkgRoundID
+		if i := strings.IndexByte(det, '|'); i >= 0 {
+			det, liveRound = det[:i], det[i+1:]
+		}
+		p, _ := strconv.Atoi(det)
 		judged++
 		w.Abstract[inj.Kind] = true
 		if pan != "" {
 			w.Fail("C10", "panic/"+inj.Kind, pan)
 			return
 		}
-		rb, ra := participantRecords(before, m.DkgRoundID, p), participantRecords(after, m.DkgRoundID, p)
+		rb, ra := participantRecords(before, liveRound, p), participantRecords(after, liveRound, p)
 		if rb == ra {
 			return
 		}
